@@ -359,6 +359,24 @@ def variations(ctx, rr):
                     rr.fail(ctx.finding('R-VARIATIONS', lv, c, 'the www variation replaces the first occurrence of `%s`, which is not the whole host section (%s): when the same stem text '
                                         'occurs earlier in the LRU, another stem is rewritten and the class is no longer closed'
                                         % (ast.unparse(needle), ', '.join(ast.unparse(d)[:40] for d in defs) or 'no definition'), stmt='www needle'))
+    # strip()/rstrip()/lstrip() with an argument remove a SET of characters, not a prefix or suffix
+    for u in (hv, lv):
+        for c in P.own(u, ast.Call):
+            if isinstance(c.func, ast.Attribute) and c.func.attr in ('strip', 'rstrip', 'lstrip') and c.args and isinstance(c.args[0], ast.Constant) \
+                    and isinstance(c.args[0].value, (bytes, str)) and len(c.args[0].value) > 1:
+                rr.ob(ctx.where(u, c), 'stems are removed as whole stems', ok=False)
+                rr.fail(ctx.finding('R-VARIATIONS', u, c, '`%s` strips every trailing/leading character that occurs in %r, not that stem: a neighbouring host label ending in one of these '
+                                    'characters is shortened too, so a non-www stem changes and the class is not closed' % (ast.unparse(c)[:50], c.args[0].value)))
+    # the two scheme branches are symmetric: no http(s) LRU is declared twin-less under an extra condition (its twin would still map to it)
+    for r_ in P.own(hv, ast.Return):
+        is_none = r_.value is None or (isinstance(r_.value, ast.Constant) and r_.value.value is None)
+        if is_none and r_ is not hv.node.body[-1] and not (isinstance(hv.node.body[-1], ast.If) and r_ in ast.walk(hv.node.body[-1]) and False):
+            par_ = P.parent.get(id(r_))
+            if isinstance(par_, ast.If):
+                tested = ast.unparse(par_.test)
+                rr.ob(ctx.where(hv, r_), 'https_variation gives every http(s) LRU its twin', ok=False)
+                rr.fail(ctx.finding('R-VARIATIONS', hv, r_, 'https_variation returns None under `%s`: LRUs of that shape get no scheme twin although the twin still maps back to them, so the '
+                                    'variation class depends on which variation is met first' % tested[:60]))
     # the scheme variation is another LRU or nothing: never the LRU itself (it would be listed twice)
     for r_ in P.own(hv, ast.Return):
         same = isinstance(r_.value, ast.Name) and r_.value.id in hv.params
